@@ -2,6 +2,7 @@
 import itertools
 import json
 import os
+import random
 
 from ..core import Result, out_bytes, cli
 from .. import gen, model, ser
@@ -140,7 +141,7 @@ def check_case(ctx, case):
         if i:
             name += '.l%d' % i
         with open(os.path.join(d, '%s.%s' % (name, fmts[i])), 'w') as f:
-            f.write(ser.write(fmts[i], [l], style='quoted' if fmts[i] == 'yaml' else None))
+            f.write(ser.write(fmts[i], [l], random.Random(json.dumps(l, sort_keys=True, default=str))))
     top = '%s.%s' % (name, fmts[-1])
     want = model.skeleton(merged)
     res.nontrivial = any(s == '$required' for l in layers for s in strings_of(l))
